@@ -2,7 +2,7 @@
 //! and turns whatever happens (solution, error, panic, step-budget exhaustion) into a plain
 //! `Outcome` the judges can look at.
 
-use crate::model::{Cmp, Dom, GenModel, Sense};
+use crate::model::{Cmp, Decor, Dom, GenModel, Sense};
 use indexmap::IndexMap;
 use rooc::model_transformer::DomainVariable;
 use rooc::{
@@ -65,7 +65,12 @@ impl Entry {
         matches!(self, Entry::RealMicrolp | Entry::SlowSimplex)
     }
     pub fn accepts(&self, m: &GenModel) -> bool {
-        (!self.continuous_only() || m.is_continuous())
+        (!self.continuous_only()
+            || if self.is_builder() {
+                m.is_continuous_through_builder()
+            } else {
+                m.is_continuous()
+            })
             && (!self.needs_objective() || m.sense != Sense::Satisfy)
     }
     /// Backed by microlp (reads the simulated clock).
@@ -402,6 +407,20 @@ pub fn to_builder(m: &GenModel) -> (ModelBuilder, Vec<rooc::Var>) {
             Expr::Number(r.rhs),
             r.name.clone(),
         ));
+    }
+    for d in &m.decor {
+        let (i, j) = d.vars();
+        let (xi, xj) = (Expr::Variable(i), Expr::Variable(j));
+        let (lhs, cmp, bound) = match d {
+            Decor::AbsLe { bound, .. } => (
+                Expr::Abs(Box::new(Expr::BinOp(BinOp::Sub, Box::new(xi), Box::new(xj)))),
+                Comparison::LessOrEqual,
+                *bound,
+            ),
+            Decor::MaxGe { bound, .. } => (Expr::Max(vec![xi, xj]), Comparison::GreaterOrEqual, *bound),
+            Decor::MinLe { bound, .. } => (Expr::Min(vec![xi, xj]), Comparison::LessOrEqual, *bound),
+        };
+        b = b.with(BuilderConstraint::new(lhs, cmp, Expr::Number(bound), String::new()));
     }
     let obj = lin_expr(&m.effective_obj(), m.offset);
     b = match m.sense {
